@@ -79,6 +79,16 @@ class Pointer(int, BaseType, Generic[T]):
         return cls.__new__(cls, cls.cs.pointer._read(stream, context), stream, context)
 
     @classmethod
+    def _read_0(cls, stream: BinaryIO, context: dict[str, Any] | None = None) -> list[Self]:
+        result = []
+
+        # A null-terminated array of pointers ends at (and consumes) the first null pointer
+        while (value := cls._read(stream, context)) != 0:
+            result.append(value)
+
+        return result
+
+    @classmethod
     def _write(cls, stream: BinaryIO, data: int) -> int:
         return cls.cs.pointer._write(stream, data)
 
